@@ -1272,7 +1272,7 @@ CLAIM = {
             "parked-on field wakes the parked slots in the same critical section with polarity and wake-if-zero idioms (C04-NOTIFY/EXTCOND), "
             "stack replay of the pending instruction (C04-STACK), atomic scheduler transitions and sibling agreement of the two runtimes "
             "(C04-SCHED), error routing (C04-ERR) and an acyclic interprocedural lock-order graph (C04-LOCK). Tests sample one poll order; "
-            "these rules quantify over every path. Counter values and fairness remain undecided. Plus the arrival rule for the 13 countdown barriers (DelayedPartitionCount::dec_by_one): a path that leaves the function successfully without arriving is decided only by the partition's own phase or by plain (immutable) configuration fields, never by shared mutable operator state or data. Declaration rule: every operator poll method takes its partition state by `&mut` and the operator state by `&`, pipeline drivers take `&mut self` (exclusive per-partition access for all schedules is enforced by the borrow checker).",
+            "these rules quantify over every path. Counter values and fairness remain undecided. Plus the arrival rule for the 13 countdown barriers (DelayedPartitionCount::dec_by_one): a path that leaves the function successfully without arriving is decided only by the partition's own phase or by plain (immutable) configuration fields, never by shared mutable operator state or data. Declaration rule: every operator poll method takes its partition state by `&mut` and the operator state by `&`, pipeline drivers take `&mut self` (exclusive per-partition access for all schedules is enforced by the borrow checker). And: ExecutionStack raises `finalized[i]` for another operator only behind the result of that operator's finalize call (never when the finalize is merely scheduled).",
     "note": "trusted: rustc MIR; class-hierarchy/RTA call graph (Waker::wake → workspace impl Wake unless the slot only holds external "
             "consumers' wakers); exemption tables in rules/c04.py (each with reason, several with checked side conditions); "
             "closures passed to spawn functions run outside the spawner's locks",
